@@ -48,7 +48,9 @@ served = lambda e: [c["property_id"] for c in checks if e in c["engine"]]
 m = {
     "version": 1,
     "setup_cmd": "./setup.sh",
-    "hooks": {**old["hooks"], "source_commits": HOOK_COMMITS, "add_only": True, "enable": "cargo kani sets --cfg kani (in-crate harness modules are included by #[cfg(kani)] mod verif_kani { include!(\"/verif/kani/incrate/<file>.rs\"); }); no flag is needed for the Verus route", "baseline_off_cmd": "cd /repo && cargo test --workspace --no-fail-fast --offline"},
+    "hooks": {**old["hooks"], "source_commits": HOOK_COMMITS, "add_only": True,
+              "guard": "cfg(kani) for the Kani harness modules; cfg(all(test, nlnetlabs_domain_verif)) for the in-crate native test modules",
+              "enable": "cargo kani sets --cfg kani (in-crate harness modules are included by #[cfg(kani)] mod verif_kani { include!(\"/verif/kani/incrate/<file>.rs\"); }); the in-crate native tests (#[cfg(all(test, nlnetlabs_domain_verif))] mod verif_native { include!(\"/verif/native/incrate/<file>.rs\"); } in dnssec/validator/group.rs and nsec.rs) are built by ./check with RUSTFLAGS=\"--cfg nlnetlabs_domain_verif\" cargo test --lib --features bytes,ring,unstable-sign,unstable-validator,unstable-stelline,unstable-zonetree,tokio-stream,net; no flag is needed for the Verus route", "baseline_off_cmd": "cd /repo && cargo test --workspace --no-fail-fast --offline"},
     "engines": [
         {"name": "vx", "path": "lib/vxlib.py", "serves_properties": served("vx"),
          "kind_free_text": "Verus 0.2026.09.13 on functions extracted mechanically from /repo on every run (tools/vxextract + units/*/unit.vrs)"},
